@@ -78,8 +78,23 @@ def check(c):
             return dict(**{"class": "min-mean-max"}, what="min <= mean <= max violated")
     if not numpy.array_equal(t, t0) or not df.equals(df0):
         return dict(**{"class": "input-mutated"}, what="input modified")
-    if c["model"] == "tree" and c["table"] != "collinear+constant":
-        pass
+    if c["model"] == "linreg" and not c["minmax"]:
+        # a learner that keeps what it learnt when fitted a second time (warm start): every coefficient is computed with its own copy
+        # of the model, so the result is the one of the plain learner
+        from sklearn.base import BaseEstimator, RegressorMixin
+
+        class KeepsFirstFit(BaseEstimator, RegressorMixin):
+            def fit(self, X, y):
+                if not hasattr(self, "inner_"):
+                    self.inner_ = LinearRegression().fit(X, y)
+                return self
+
+            def predict(self, X):
+                return self.inner_.predict(X)
+        numpy.random.seed(5)
+        rk = non_linear_correlations(t, KeepsFirstFit(), draws=3)
+        if not numpy.allclose(numpy.asarray(rk, dtype=float), numpy.asarray(ra[0], dtype=float), rtol=0, atol=1e-12):
+            return dict(**{"class": "model-shared-between-coefficients"}, what="a learner that keeps state between fits gives other correlations: one model object is refitted")
     return None
 
 
